@@ -4,7 +4,7 @@ import ast
 
 from .. import sym, refcmp
 from ..match import SELF, params
-from ..source import AnalysisError, literal
+from ..source import AnalysisError, literal, src
 
 EXPLANATION = (
     "Every special method of GenericQuantity (as finally bound in the class "
@@ -275,6 +275,7 @@ def run(chk, repo, tier):
     chk.ob('R11.6', ok, QTY, repo.mod(QTY).tree.body[0], key='is_zero-import',
            qualname='<module>', what='qty.py uses Units.utils.is_zero')
     guard_vs_property(chk, repo, meths)
+    nullable_unit_comparisons(chk, repo)
     # constructors: what units a quantity carries (a bundle of quantities
     # must agree on one dimension) is decided here
     from .. import reviewed as _rv
@@ -285,6 +286,76 @@ def run(chk, repo, tier):
                   '%s (which units a new quantity carries; a bundle of '
                   'quantities must agree on them) is unchanged in normal '
                   'form from its reviewed reference' % q)
+
+
+def nullable_unit_comparisons(chk, repo):
+    """R11.7 (contradiction rule): FundamentalUnits.__eq__/__ne__ read
+    `other.exps` unconditionally, so a units value that may still be None must
+    not reach `==`/`!=`.  In qty.py, a local that is set to None somewhere in
+    a function and compared with ==/!= must be tested first (`x and x != y`,
+    `x is not None and ...`, or inside `if x:`), as its other uses are."""
+    n = 0
+    for f in ast.walk(repo.mod(QTY).tree):
+        if not isinstance(f, ast.FunctionDef):
+            continue
+        nullable = set()
+        for a in ast.walk(f):
+            if isinstance(a, ast.Assign) and isinstance(
+                    a.value, ast.Constant) and a.value.value is None:
+                for t in a.targets:
+                    if isinstance(t, ast.Name):
+                        nullable.add(t.id)
+        if not nullable:
+            continue
+        for c in ast.walk(f):
+            if not (isinstance(c, ast.Compare) and any(isinstance(
+                    o, (ast.Eq, ast.NotEq)) for o in c.ops)):
+                continue
+            names = [x.id for x in [c.left] + c.comparators
+                     if isinstance(x, ast.Name) and x.id in nullable]
+            others = [x for x in [c.left] + c.comparators
+                      if not (isinstance(x, ast.Constant))]
+            if not names or len(others) < 2:
+                continue        # comparison with a literal is harmless
+            for name in names:
+                n += 1
+                guarded = False
+                p, child = getattr(c, '_parent', None), c
+                while p is not None and p is not f:
+                    if isinstance(p, ast.BoolOp) and isinstance(
+                            p.op, ast.And):
+                        for v in p.values:
+                            if v is child:
+                                break
+                            if _tests_not_none(v, name):
+                                guarded = True
+                    if isinstance(p, (ast.If, ast.While)) and child in \
+                            p.body and _tests_not_none(p.test, name):
+                        guarded = True
+                    if isinstance(p, ast.IfExp) and child is p.body \
+                            and _tests_not_none(p.test, name):
+                        guarded = True
+                    child, p = p, getattr(p, '_parent', None)
+                chk.ob('R11.7', guarded, QTY, c,
+                       key='nullable-compare:%s:%s' % (f.name, name),
+                       what='%s: `%s` may still be None where it is compared '
+                            '(units equality reads .exps of both sides)'
+                            % (f.name, name), found=src(c))
+    chk.need('R11.7', n, 1, 'comparisons of may-be-None unit locals')
+
+
+def _tests_not_none(test, name):
+    if isinstance(test, ast.Name) and test.id == name:
+        return True
+    if isinstance(test, ast.Compare) and isinstance(
+            test.left, ast.Name) and test.left.id == name and len(
+            test.ops) == 1 and isinstance(test.ops[0], ast.IsNot) \
+            and isinstance(test.comparators[0], ast.Constant) \
+            and test.comparators[0].value is None:
+        return True
+    if isinstance(test, ast.BoolOp) and isinstance(test.op, ast.And):
+        return any(_tests_not_none(v, name) for v in test.values)
+    return False
 
 
 def guard_vs_property(chk, repo, meths):
